@@ -42,6 +42,7 @@ import (
 	"net/http"
 	"net/http/httptest"
 	"net/url"
+	"os"
 	"path/filepath"
 	"strings"
 	"testing"
@@ -319,7 +320,7 @@ func c06RoleOutside(b c06Block, rng *mrand.Rand) uint32 {
 func c06RoleCertStage(t *testing.T, p *c06Prober, cfg c06Config, mat *c06Material, fakes *c06Fakes, res *verifResult, hit func(verifHit)) (string, []string) {
 	start := time.Now()
 	rng := mrand.New(mrand.NewSource(verifSeed() + 606))
-	thorough := verifThorough()
+	thorough := verifThorough() || os.Getenv("VERIF_C06_ROLE_ALL") != "" // the knob runs this stage alone at its thorough volume
 	keys := c06RoleKeys()
 	servers := []*c06RoleServer{c06RoleServerNew(t, p, mat, fakes, res, false), c06RoleServerNew(t, p, mat, fakes, res, true)}
 	var defs, cases, idx []string
